@@ -119,47 +119,80 @@ def trimReturn (acc : List S) : List S :=
       | _ => acc
   | _ => acc
 
+/-- `if(!a)b;else c → if(a)c;else b` when `c` ends in a flow statement -/
+def swapNotFlow (c : E) (t e : S) : E × S × S :=
+  match c with
+  | unary .not x => if isFlowStmt (lastStmt e) then (x, e, t) else (c, t, e)
+  | _ => (c, t, e)
+
+/-- the statements of an else branch that is put behind its `if` -/
+def blockItems : S → List S
+  | .block l => l
+  | s => [s]
+
+/-- if the body of an `if` ends in a flow statement (return, throw) the else branch is removed and its statements are
+    put behind the `if` -/
+def elseRemoval (s0 : S) (rest0 : List S) : S × List S :=
+  match s0 with
+  | .ifS c t e =>
+    if !isEmptyStmt e then
+      if isFlowStmt (lastStmt (swapNotFlow c t e).2.1) then
+        (.ifS (swapNotFlow c t e).1 (swapNotFlow c t e).2.1 .absent, blockItems (swapNotFlow c t e).2.2 ++ rest0)
+      else (.ifS (swapNotFlow c t e).1 (swapNotFlow c t e).2.1 (swapNotFlow c t e).2.2, rest0)
+    else (s0, rest0)
+  | _ => (s0, rest0)
+
+/-- merge expression statements with expression, return, throw and if statements -/
+def mergeAcc (acc : List S) (s2 : S) : List S :=
+  match splitLast acc with
+  | some (init, .expr left) =>
+    (match mergeLeft left s2 with
+     | some s => init ++ [s]
+     | none => acc ++ [s2])
+  | _ => acc ++ [s2]
+
+/-- `optimizeStmt` on an `if` whose condition is not a negation to be swapped: `t`, `e` are the optimised branches -/
+def optIfCore (c : E) (t e : S) : S :=
+  let hasIf := !isEmptyStmt t
+  let hasElse := !isEmptyStmt e
+  if !hasIf && !hasElse then
+    if hasSideEffects c then .expr c else .empty
+  else if hasIf && !hasElse then
+    match t with
+    | .expr v =>
+      (match c with
+       | unary .not x => .expr (bin .lor (groupExpr x BOp.lor.left) (groupExpr v BOp.lor.right))
+       | _ => .expr (bin .land (groupExpr c BOp.land.left) (groupExpr v BOp.land.right)))
+    | .ifS c2 t2 e2 =>
+      if isEmptyStmt e2 then
+        .ifS (bin .land (groupExpr c BOp.land.left) (groupExpr c2 BOp.land.right)) t2 e
+      else .ifS c t e
+    | _ => .ifS c t e
+  else if !hasIf && hasElse then
+    match e with
+    | .expr v => .expr (bin .lor (groupExpr c BOp.lor.left) (groupExpr v BOp.lor.right))
+    | _ => .ifS c t e
+  else
+    match t, e with
+    | .expr xv, .expr yv => .expr (condExprU c xv yv)
+    | .ret none, .ret none => .ret (some (commaExprU c (unary .void (lit (.num 0)))))
+    | .ret (some a), .ret (some b) => .ret (some (condExprU c a b))
+    | .throw a, .throw b => .throw (condExprU c a b)
+    | _, _ => .ifS c t e
+
+/-- `optimizeStmt` on an `if` with optimised branches: `if(!a)b;else c → if(a)c;else b` first -/
+def optIf (c : E) (t1 e1 : S) : S :=
+  match c with
+  | unary .not x => if !isEmptyStmt e1 then optIfCore x e1 t1 else optIfCore c t1 e1
+  | _ => optIfCore c t1 e1
+
 mutual
 /-- `optimizeStmt` -/
 def optStmt : Nat → S → S
   | 0, s => s
   | fuel + 1, s =>
     match s with
-    | .ifS c t0 e0 =>
-      let t1 := optStmt fuel t0
-      let e1 := optStmt fuel e0
-      let hasIf0 := !isEmptyStmt t1
-      let hasElse0 := !isEmptyStmt e1
-      let sw : Bool := match c with | unary .not _ => hasElse0 | _ => false
-      let c := if sw then (match c with | unary .not x => x | c => c) else c
-      let t := if sw then e1 else t1
-      let e := if sw then t1 else e1
-      let hasIf := if sw then hasElse0 else hasIf0
-      let hasElse := if sw then hasIf0 else hasElse0
-      if !hasIf && !hasElse then
-        if hasSideEffects c then .expr c else .empty
-      else if hasIf && !hasElse then
-        match t with
-        | .expr v =>
-          (match c with
-           | unary .not x => .expr (bin .lor (groupExpr x BOp.lor.left) (groupExpr v BOp.lor.right))
-           | _ => .expr (bin .land (groupExpr c BOp.land.left) (groupExpr v BOp.land.right)))
-        | .ifS c2 t2 e2 =>
-          if isEmptyStmt e2 then
-            .ifS (bin .land (groupExpr c BOp.land.left) (groupExpr c2 BOp.land.right)) t2 e
-          else .ifS c t e
-        | _ => .ifS c t e
-      else if !hasIf && hasElse then
-        match e with
-        | .expr v => .expr (bin .lor (groupExpr c BOp.lor.left) (groupExpr v BOp.lor.right))
-        | _ => .ifS c t e
-      else
-        match t, e with
-        | .expr xv, .expr yv => .expr (condExprU c xv yv)
-        | .ret none, .ret none => .ret (some (commaExprU c (unary .void (lit (.num 0)))))
-        | .ret (some a), .ret (some b) => .ret (some (condExprU c a b))
-        | .throw a, .throw b => .throw (condExprU c a b)
-        | _, _ => .ifS c t e
+    | .ifS c t0 e0 => optIf c (optStmt fuel t0) (optStmt fuel e0)
     | .block l =>
       let l' := optStmtList fuel l .default
       (match l' with
@@ -175,31 +208,12 @@ def optLoop : Nat → List S → List S → List S
     match pending with
     | [] => acc
     | s0 :: rest0 =>
-      -- if(!a)b;else c → if(a)c;else b when c ends in a flow statement; else-removal after a flow statement
-      let (s1, rest) : S × List S :=
-        match s0 with
-        | .ifS c t e =>
-          if !isEmptyStmt e then
-            let sw : Bool := match c with | unary .not _ => isFlowStmt (lastStmt e) | _ => false
-            let c1 := if sw then (match c with | unary .not x => x | c => c) else c
-            let t1 := if sw then e else t
-            let e1 := if sw then t else e
-            if isFlowStmt (lastStmt t1) then
-              (.ifS c1 t1 .absent, (match e1 with | .block l => l | s => [s]) ++ rest0)
-            else (.ifS c1 t1 e1, rest0)
-          else (s0, rest0)
-        | _ => (s0, rest0)
-      let s2 := optStmt fuel s1
-      if isEmptyNode s2 then optLoop fuel acc (rest.dropWhile isEmptyNode)
+      let r := elseRemoval s0 rest0
+      let s2 := optStmt fuel r.1
+      if isEmptyNode s2 then optLoop fuel acc (r.2.dropWhile isEmptyNode)
       else
-        let merged : Option (List S × S) :=
-          match splitLast acc with
-          | some (init, .expr left) => (mergeLeft left s2).map (fun s => (init, s))
-          | _ => none
-        let acc1 : List S := match merged with
-          | some (init, s) => init ++ [s]
-          | none => acc ++ [s2]
-        optLoop fuel (mergeIfRet (acc1.length + 1) acc1) rest
+        let acc1 := mergeAcc acc s2
+        optLoop fuel (mergeIfRet (acc1.length + 1) acc1) r.2
 
 /-- `optimizeStmtList` -/
 def optStmtList : Nat → List S → BlockType → List S
@@ -353,11 +367,14 @@ def printL (o : Opts) : Nat → List S → Bool → Option (List Tok)
       | some r => some ((if pending then [Tok.p ";"] else []) ++ ts ++ r)
 end
 
-/-- model of `(*js.Minifier).Minify` on a program of the fragment (`KeepVarNames`), as source characters -/
-def jsMinify (o : Opts) (prog : List S) : Option (List Char) :=
+/-- the tokens `(*js.Minifier).Minify` writes for a program of the fragment (`KeepVarNames`) -/
+def jsTokens (o : Opts) (prog : List S) : Option (List Tok) :=
   let n := 4 * sizeSL prog + 16
   let l := optStmtList n prog .function
   if o.guarded && k1Trigger (optLoop (n - 1) [] prog) then none else
-  (printL o n l false).map emit
+  printL o n l false
+
+/-- model of `(*js.Minifier).Minify` on a program of the fragment (`KeepVarNames`), as source characters -/
+def jsMinify (o : Opts) (prog : List S) : Option (List Char) := (jsTokens o prog).map emit
 
 end Verif.Model.JsStmt
